@@ -529,3 +529,8 @@ V("c17-silent-helper-size", "C17", "silent", UT, "                fold_size = ro
   more=[(UT, "def split_data(data, ratios, random_state=42):", "def _fold_size(n, ratio):\n    return round(n * ratio)\n\n\ndef split_data(data, ratios, random_state=42):")], what="fold size computed by a private helper")
 V("c02-silent-helper-noise", "C02", "silent", AN, "                    noise = self.noise_distributions[i](n) + shift_interventions[i](n)\n", "                    noise = _shifted(self.noise_distributions[i], shift_interventions[i], n)\n",
   more=[(AN, "class ANM:", "def _shifted(original, shift, n):\n    return original(n) + shift(n)\n\n\nclass ANM:")], what="shifted noise drawn by a private helper")
+
+# ------------------------------------------------------------------------------- C07 seed-inspired
+V("c07-chain-test-by-sum", "C07", "fire", UT, "    return (A == chain_graph(p)).all()", "    ix = np.arange(p - 1)\n    return bool(A.sum() == p - 1 and (A[ix, ix + 1] != 0).all())", rule="PAT", what="chain test spoofed by weights that sum to p-1")
+V("c07-silent-chain-array-equal", "C07", "silent", UT, "    return (A == chain_graph(p)).all()", "    return np.array_equal(A, chain_graph(p))", what="array_equal spelling of the exact chain test")
+V("c14-memoised-chain-mec", "C14", "fire", UT, "from functools import reduce\n", "from functools import reduce, lru_cache\n", more=[(UT, "def chain_graph_MEC(p):", "@lru_cache(maxsize=None)\ndef chain_graph_MEC(p):")], rule="M4", what="memoised function hands out one shared array")
